@@ -58,5 +58,7 @@ From Coq Require Import ZArith NArith. (* consts *)
 From FG Require ConstTie.
 From FG Require GameTree.
 Theorem C06_model_constants_dumped :
-  GameTree.MATE = c_value_checkmate /\ GameTree.MAXPLY = c_max_depth.
+  GameTree.MATE = c_value_checkmate /\ GameTree.MAXPLY = c_max_depth /\
+  GameTree.NA = c_value_na /\ (- GameTree.MATE)%Z = c_value_min /\ GameTree.MATE = c_value_max /\
+  c_value_draw = 0%Z.
 Proof. exact ConstTie.gametree_constants_dumped. Qed.
